@@ -67,6 +67,18 @@ fn gen_input() -> Input {
             let n = gen::draw(base.len() as u32 + 1) as usize;
             Input { bytes: base[..n].to_vec(), what: "prefix-of-valid-archive".into(), declared: declared0, server_fault: None, source_hint: data }
         }
+        2 if gen::chance(1, 4) => {
+            // the dictionary size field (not covered by any checksum when it is read) set to
+            // values on the edges of the arithmetic done with it
+            let mut b = base.clone();
+            let real = (enc.header_len - 14 - 72) as u64;
+            let v = *gen::t(|t| {
+                t.pick(&[u64::MAX, u64::MAX - 13, u64::MAX - 14, u64::MAX - 71, u64::MAX - 72, u64::MAX - 85, u64::MAX - 86, 1 << 63, (1 << 63) - 1, 1 << 32, 1 << 40, 0, 1, 7])
+            });
+            let v = if gen::chance(1, 6) { real + 1 } else if gen::chance(1, 6) { real.saturating_sub(1) } else { v };
+            b[6..14].copy_from_slice(&v.to_le_bytes());
+            Input { bytes: b, what: "dictionary-size-extreme".into(), declared: declared0, server_fault: None, source_hint: data }
+        }
         2 => {
             let mut b = base.clone();
             let byte = if gen::chance(1, 3) { 6 + gen::draw(8) as usize } else { gen::draw(b.len() as u32) as usize };
@@ -295,6 +307,7 @@ pub fn run(ctx: &mut Ctx) {
             "random-bytes" => "fault:RandomBytes",
             "prefix-of-valid-archive" => "fault:Truncation",
             "bit-flip" => "fault:BitFlip",
+            "dictionary-size-extreme" => "fault:DictionarySizeExtreme",
             "field" => "fault:FieldMutationValidChecksum",
             _ => "fault:MisbehavingServer",
         });
